@@ -133,6 +133,13 @@ func gen(t *rapid.T, protos []string, maxN int) (Case, bool) {
 		c.Deviation = rapid.SampledFrom(devs).Draw(t, "deviation")
 		return c, true
 	}
+	if strings.HasPrefix(p, "cmp-") && rapid.IntRange(0, 3).Draw(t, "ciphertextLevel") == 0 {
+		devs := advrun.CiphertextDeviationsFor(p)
+		if len(devs) > 0 {
+			c.Deviation = rapid.SampledFrom(devs).Draw(t, "ctDeviation")
+			return c, true
+		}
+	}
 	ss := slots(c.Setup, c.Cheater)
 	if len(ss) == 0 {
 		return c, false
@@ -179,6 +186,34 @@ func TestWalk(t *testing.T) {
 						}
 						prop.One(t, Case{Setup: s, Cheater: cheater, Tamper: &adv.Tamper{Round: sl.Round, Broadcast: sl.Broadcast, To: sl.To, Path: sl.Path, Kind: kind, Variant: i}})
 					}
+				}
+			}
+		}
+	}
+}
+
+// TestCtDeviations enumerates the ciphertext-level deviations (a well-formed ciphertext of a wrong value to one
+// recipient) over the CMP protocols: quick n=2, thorough n=2 and 3 with every cheater position.
+func TestCtDeviations(t *testing.T) {
+	rec := ev.Get()
+	i := 0
+	for _, p := range cmpProtos {
+		devs := advrun.CiphertextDeviationsFor(p)
+		ns := []int{2}
+		if rec.Thorough() {
+			ns = []int{2, 3}
+		}
+		for _, n := range ns {
+			for di, d := range devs {
+				for cheater := 0; cheater < n; cheater++ {
+					if !rec.Thorough() && len(devs) > 1 && cheater != di%n {
+						continue
+					}
+					i++
+					if !rec.Mine(i) {
+						continue
+					}
+					prop.One(t, Case{Setup: advrun.Setup{Proto: p, N: n, T: n - 1, Seed: 1}, Cheater: cheater, Deviation: d})
 				}
 			}
 		}
